@@ -392,6 +392,9 @@ func randomDataOp(r *rand.Rand, pid uint16, auto bool, slot int, o HistOpts) HOp
 		h.OptionalHeader = &astits.PESOptionalHeader{MarkerBits: 2}
 	case 1:
 		h.StreamID = []uint8{0xBE, 0xBF}[r.IntN(2)]
+		if r.IntN(2) == 0 {
+			h.OptionalHeader = gen.OptionalHeader(r, -1, -1, true) // ignored for these stream ids
+		}
 	default:
 		h.StreamID = []uint8{0xC0, 0xE0, 0xFD, 0xBD, 0xE1, 0xDF}[r.IntN(6)]
 		h.OptionalHeader = &astits.PESOptionalHeader{MarkerBits: 2}
@@ -402,7 +405,7 @@ func randomDataOp(r *rand.Rand, pid uint16, auto bool, slot int, o HistOpts) HOp
 	d := &astits.MuxerData{PES: &astits.PESData{Header: h, Data: gen.Bytes(r, muxPayloadLen(r, o.LongPayloads))}}
 	copy(d.PES.Data, gen.Tag(pid, r.IntN(1<<20)))
 	hdrLen := 6
-	if h.OptionalHeader != nil {
+	if h.OptionalHeader != nil && h.StreamID != 0xBE && h.StreamID != 0xBF {
 		b, err := refts.EncodePES(&astits.PESHeader{StreamID: 0xC0, OptionalHeader: h.OptionalHeader}, nil, refts.PESEnc{}, nil)
 		if err == nil {
 			hdrLen = len(b)
